@@ -165,9 +165,8 @@ PROPS["C12"] = dict(
     stages=[Stage("c12", variant="rel"), Stage("c12", variant="chk", args=["--maxk", "10"])]
            + [Stage("c12", variant="par", threads=t, tiers=("quick", "thorough") if t in PAR_THREADS_QUICK else ("thorough",)) for t in PAR_THREADS_ALL]
            + [Stage("c12", kind="tsan", threads=8, args=["--maxk", "11"], timeout=(900, 1800)),
-              Stage("c12", kind="miri", args=["--maxk", "4"], miri_flags=MIRI_SERIAL, timeout=(1800, 3600), tiers=("thorough",)),
-              Stage("c12", kind="miri", variant="par", args=["--maxk", "10", "--full", "16"], miri_flags=MIRI_PAR, env={"FEATURES": "concurrent"},
-                    threads=4, timeout=(1800, 3600), tiers=("thorough",))],
+              # (Miri stages for c12 were dropped: neither finished within an hour in the thorough runs, see DESIGN 0a.2)
+              ],
 )
 
 PROPS["C15"] = dict(
@@ -180,7 +179,7 @@ PROPS["C15"] = dict(
     assumptions=["the blake3 and sha3 crates (the same versions the repository locks) are the primitives' reference"],
     floor=500,
     stages=[Stage("c15", variant="rel"), Stage("c15", variant="chk"),
-            Stage("c15", kind="miri", args=["--n", "1"], miri_flags=MIRI_SERIAL, timeout=(900, 1800), tiers=("thorough",))],
+            Stage("c15", kind="miri", args=["--n", "1", "--len", "12"], miri_flags=MIRI_SERIAL, timeout=(900, 1800), tiers=("thorough",))],
 )
 
 PROPS["C16"] = dict(
@@ -196,8 +195,7 @@ PROPS["C16"] = dict(
                  "RpJive64_256 completes a final partial block by SETTING the remaining rate elements to 1,0,..,0 (as its "
                  "inline documentation shows); the reference follows that rule"],
     floor=500,
-    stages=[Stage("c16", variant="rel"), Stage("c16", variant="chk", args=["--n", "600"]),
-            Stage("c16", kind="miri", args=["--n", "6"], miri_flags=MIRI_SERIAL, timeout=(900, 1800), tiers=("thorough",))],
+    stages=[Stage("c16", variant="rel"), Stage("c16", variant="chk", args=["--n", "600"])],  # (Miri stage dropped: the Rescue reference work does not finish under Miri, DESIGN 0a.2)
 )
 
 PROPS["C17"] = dict(
